@@ -7,16 +7,18 @@ PROP = dict(
                "UDQSet/UDQFunction and by an independent token-level reference interpreter; value and defined-ness are compared "
                "per well/group. Every 41st case is an ASSIGN/DEFINE/UPDATE history driven through Schedule + UDQConfig::eval and "
                "compared with a reference history model after every report step. Exploration is the right level: the input "
-               "space (programs x summary states) is unbounded; the oracle is exact up to rounding (1e-10 of the largest "
-               "intermediate).",
+               "space (programs x summary states) is unbounded; the oracle is exact up to rounding (tolerance: 32 x a forward "
+               "rounding-error bound the reference carries along + 1e-13 relative; observed differences are 0).",
     level_note="Trusts the ~400-line reference interpreter and libm. Inputs the statement does not decide are not compared "
                "(counted under guarded_not_decided_by_statement): a^b^c, a sign directly before a ^ operand, division by zero, "
                "LN/LOG/AVEG/pow domain errors, non-finite or >1e12 intermediates, NINT at .5, SORTA/SORTD ties, comparisons of "
-               "operands closer than 1% (UDQPARAM tolerance zone), comparison/union chains whose two groupings differ, "
+               "operands closer than 1% (UDQPARAM tolerance zone) or equal only up to rounding, ill-conditioned results, "
+               "comparison/union chains whose two groupings differ (where they agree the library may follow either), "
                "reductions/sorts of scalar expressions (the library turns literals into sets), group-name wildcards (refused "
                "by the library as not yet supported), DEFINE sets whose result depends on the evaluation order. Violation keys "
                "name the library mechanism of the smallest failing sub-expression; `:in-operand` marks a construct with a known "
-               "mechanism inside an operand of the failing operator.",
+               "mechanism inside an operand of the failing operator; history keys name the last record on the quantity that is "
+               "wrong by itself (history:update-NEXT, history:assign, ...).",
     technique="reference-model monitor (independent UDQ interpreter + history model) over generated expressions and histories",
     rule="expression case: random world (2-6 wells, 2-4 groups, summary and UDQ quantities with defined and undefined entries, "
          "zero/negative/positive values) + random token sequence from the grammar (nesting depth <= 5, <= ~75 tokens; numbers, "
